@@ -14,3 +14,4 @@ import TvUring.Props.C20
 #print axioms TV.C20.unmatched_after_drop
 #print axioms TV.C20.earliest_created
 #print axioms TV.C20.build_id_fresh
+#print axioms TV.C20.noop_backlog
